@@ -153,3 +153,52 @@ Proof. exact bad_rem_refuted. Qed.
 Theorem C10_bad_add_refuted : exists N s, 0 < N /\ valid_slice 16 s /\
   chunks_from_slice_bad_add N s <> chunks_from_slice N s.
 Proof. exact bad_add_refuted. Qed.
+
+(* ---- tie to the current source: regenerated on every run by tools/ga2coq (coq/gen) ---- *)
+From Coq Require Import String.
+From GA Require Import Guards GuardTie.
+From GAGen Require Import GenGuards GenConstFns.
+Local Open Scope Z_scope.
+
+(* the arithmetic of chunks_from_slice / chunks_from_slice_mut as it stands in src/lib.rs now:
+   L / N arrays, the remainder at element offset (L / N) * N with length L - (L / N) * N; the
+   N = 0 branch asserts an empty slice; and the hub function is built from these expressions *)
+Theorem C10_source_arith : forall L N,
+  let en := chunk_env chunks_from_slice_lets L N in
+  geval en N chunks_from_slice_count = L / N /\
+  geval en N chunks_from_slice_rem_offset = L / N * N /\
+  geval en N chunks_from_slice_rem_len = L - L / N * N /\
+  ctest (env1 "slice.len" L) N chunks_from_slice_zero_cond = (N =? 0) /\
+  rejects chunks_from_slice_zero_guard (env1 "slice.len" L) N = negb (L =? 0) /\
+  fails_by_panic chunks_from_slice_zero_guard = true.
+Proof. exact tie_chunks_arith. Qed.
+
+Theorem C10_source_arith_mut : forall L N,
+  let en := chunk_env chunks_from_slice_mut_lets L N in
+  geval en N chunks_from_slice_mut_count = L / N /\
+  geval en N chunks_from_slice_mut_rem_offset = L / N * N /\
+  geval en N chunks_from_slice_mut_rem_len = L - L / N * N /\
+  ctest (env1 "slice.len" L) N chunks_from_slice_mut_zero_cond = (N =? 0) /\
+  rejects chunks_from_slice_mut_zero_guard (env1 "slice.len" L) N = negb (L =? 0) /\
+  fails_by_panic chunks_from_slice_mut_zero_guard = true.
+Proof. exact tie_chunks_mut_arith. Qed.
+
+Theorem C10_source_model : forall N (s : Chunks.sl), 0 < N -> 0 <= Chunks.slen s < Chunks.U64 ->
+  let L := Chunks.slen s in
+  let en := chunk_env chunks_from_slice_lets L N in
+  Chunks.chunks_from_slice N s =
+  Ret (Chunks.mkC (Chunks.sptr s) (geval en N chunks_from_slice_count),
+       Chunks.mkS (Chunks.padd (Chunks.sptr s) (geval en N chunks_from_slice_rem_offset))
+                  (geval en N chunks_from_slice_rem_len)).
+Proof. exact tie_chunks_model. Qed.
+
+Theorem C10_source_model_zero : forall (s : Chunks.sl),
+  Chunks.chunks_from_slice 0 s =
+  (if rejects chunks_from_slice_zero_guard (env1 "slice.len" (Chunks.slen s)) 0 then Panicked
+   else Ret (Chunks.mkC Chunks.Dangling 0, Chunks.mkS Chunks.Dangling 0)).
+Proof. exact tie_chunks_model_zero. Qed.
+
+Theorem C10_source_flatten_len : forall C N,
+  geval (env1 "slice.len" C) N slice_from_chunks_len = C * N /\
+  geval (env1 "slice.len" C) N slice_from_chunks_mut_len = C * N.
+Proof. exact tie_slice_from_chunks. Qed.
